@@ -116,7 +116,10 @@ fn run_scenario(sc: &Value, idx: usize, bin: &Path, scratch: &Path) -> Outcome {
     let mut r = fastrand::Rng::with_seed(seed().wrapping_mul(7919).wrapping_add(idx as u64));
     let tmp = tempfile::tempdir_in(scratch).unwrap();
     let d = tmp.path().canonicalize().unwrap();
-    for s in ["bin", "state", "tmp", "proj/fixture app/sub"] { fs::create_dir_all(d.join(s)).unwrap(); }
+    for s in ["bin", "state", "tmp", "proj/fixture app/sub", "decoy cwd/fixture app"] { fs::create_dir_all(d.join(s)).unwrap(); }
+    // the working directory of a test process need not be the manifest directory: a same-named
+    // relative directory there must never be mistaken for the fixture
+    fs::write(d.join("decoy cwd/fixture app/WRONG-DIRECTORY"), "x").unwrap();
     fs::write(d.join("proj/fixture app/Procfile"), "web: run\n").unwrap();
     fs::write(d.join("proj/fixture app/sub/file"), "x").unwrap();
     for n in ["docker", "pack"] { std::os::unix::fs::symlink(bin.join("standin"), d.join("bin").join(n)).unwrap(); }
@@ -144,7 +147,7 @@ fn run_scenario(sc: &Value, idx: usize, bin: &Path, scratch: &Path) -> Outcome {
     fs::write(d.join("state/plan.json"), json!(plan).to_string()).unwrap();
     fs::write(d.join("scenario.json"), json!({"script": script, "cfg": cfg}).to_string()).unwrap();
     let fixture_before = fsnap::snapshot(&d.join("proj"));
-    let out = Command::new(bin.join("scenario")).arg(d.join("scenario.json")).env_clear()
+    let out = Command::new(bin.join("scenario")).arg(d.join("scenario.json")).current_dir(d.join("decoy cwd")).env_clear()
         .env("PATH", format!("{}:/usr/bin:/bin", d.join("bin").display())).env("STANDIN_STATE", d.join("state"))
         .env("TMPDIR", d.join("tmp")).env("CARGO_MANIFEST_DIR", d.join("proj")).env("HOME", &d)
         .output().expect("scenario");
